@@ -160,6 +160,26 @@ class P(Prop):
             if w <= 24:
                 self.check_mux(w)
             self.check_popcount(w)
+        # call history: a circuit obtained earlier and edited by the caller must not leak into later calls
+        for w in (1, 2, 3):
+            for f, args, chk in ((cg.logic.adder, (w, False, True), lambda: self.check_adder(w, False, True)),
+                                 (cg.logic.adder, (w, True, False), lambda: self.check_adder(w, True, False)),
+                                 (cg.logic.mux, (w,), lambda: self.check_mux(w)),
+                                 (cg.logic.popcount, (w,), lambda: self.check_popcount(w))):
+                first = f(*args)
+                victims = [g for g in first.graph.nodes if first.type(g) in ("and", "or", "xor")]
+                if victims:
+                    g = victims[0]
+                    first.set_type(g, {"and": "or", "or": "and", "xor": "xnor"}[first.type(g)])
+                second = f(*args)
+                self.search_cases += 1
+                if second is first:
+                    self.fail("search", "generator-returns-same-object", f"{f.__name__}{args} returned the object of an earlier call",
+                              {"fn": f.__name__, "w": w})
+                    return
+                chk()
+        for w in (4, 5, 6, 7):
+            self.check_popcount(w)
         # helper specifications
         big = [2 ** k + d for k in range(1, 200) for d in (-1, 0, 1) if 2 ** k + d >= 1]
         for num in list(range(1, 3000)) + big:
